@@ -419,3 +419,29 @@ Theorem gen_Error_Text_table : forall (msg : list N) (sprintf : list N -> Z -> l
             end))%list [].
 Proof. exact GenTie_C19.Error_Text_table. Qed.
 Print Assumptions gen_Error_Text_table.
+
+(* ---- phase 3: ties to the Gallina regenerated from the Go source (proofs/GenTie_P3_C19.v) ---- *)
+From Coq Require Import ZArith NArith List Bool Lia String.
+From Lib Require Import Bytes.
+From Model Require Import C19_FindWire.
+From Proofs Require Import GenTie_Lib GenTie_C19.
+From Gen Require Import Gen_Consts Gen_Funcs_prelude Gen_Funcs_rwriter Gen_Funcs_apierror.
+Import ListNotations.
+Local Open Scope Z_scope.
+From Proofs Require Import GenTie_P3_C19.
+
+Theorem gen_tie_New_path : forall (d58 dhex dcid : list N -> option (list N)) (mhtype cidtype p b0 mh0 cid0 : list N), let k := {| k_b58 := d58 (key_text p); k_hex := dhex (key_text p); k_cid := dcid (key_text p) |} in let run := rwriter_New_path (list N) N (dec_pair d58) (dec_pair dcid) (fun (_ : Z) (mh : list N) => mh) (dec_pair dhex) mhdec path_base path_dir trim_space (fun c : list N => c) p b0 cid0 mh0 cidtype mhtype in match parse_key mhtype cidtype p k with | Ok (_, b, _) => exists tr : list string, run = FFall (b, b, b, tr) | Err c => exists o : list N * list N * list N * list string, run = FReturn (path_err_stmt c) o | Panic _ => False end.
+Proof. exact GenTie_P3_C19.tie_New_path. Qed.
+Print Assumptions gen_tie_New_path.
+
+Theorem gen_parse_key_no_panic : forall (mhtype cidtype p : bytes) (k : keyv) (c : N), parse_key mhtype cidtype p k <> Panic c.
+Proof. exact GenTie_P3_C19.parse_key_no_panic. Qed.
+Print Assumptions gen_parse_key_no_panic.
+
+Theorem gen_tie_DecodeError_head : forall (data : list N) (uerr : option string), apierror_DecodeError_head data uerr = (if is_nil data then FReturn "return nil" [] else match uerr with | Some _ => FReturn "return fmt.Errorf(""cannot decode error message: %s"", err)" ["err := json.Unmarshal(data, &e)"] | None => FFall ["err := json.Unmarshal(data, &e)"] end).
+Proof. exact GenTie_P3_C19.tie_DecodeError_head. Qed.
+Print Assumptions gen_tie_DecodeError_head.
+
+Theorem gen_tie_DecodeError_whole : forall (data : list N) (d : option jv) (uerr e0 : option string), d = None <-> data = [] -> isSome uerr = negb (is_ok (decode_error d)) -> match decode_error d with | Ok (Some ae) => (exists tr : list string, apierror_DecodeError_head data uerr = FFall tr) /\ match apierror_DecodeError_tail (ae_msg ae) (status_of ae) e0 with | FReturn s _ => s = match ae_status ae with | Some _ => "return New(err, e.Status)" | None => "return err" end | _ => False end | Ok None => exists tr : list string, apierror_DecodeError_head data uerr = FReturn "return nil" tr | Err _ => exists tr : list string, apierror_DecodeError_head data uerr = FReturn "return fmt.Errorf(""cannot decode error message: %s"", err)" tr | Panic _ => True end.
+Proof. exact GenTie_P3_C19.tie_DecodeError_whole. Qed.
+Print Assumptions gen_tie_DecodeError_whole.
